@@ -139,11 +139,17 @@ def yargs_term(sa):
         gal.lst(gal.pair(gal.s(k), rvalue_term(v)) for k, v in sa["remap"]), gal.boolean(sa["blr"]))
 
 
-def tables(names):
-    """truth tables of the regex / predicate oracles on the given names"""
+def tables(names, settings_list=None):
+    """truth tables of the regex / predicate oracles on the given names (only the regexes /
+    predicates that occur in the given settings, when given)"""
     names = sorted(set(names))
-    rt = [(i, [n for n in names if r.search(n) is not None]) for i, r in enumerate(REGEXES)]
-    pt = [(i, [n for n in names if p(n)]) for i, p in enumerate(PREDS)]
+    rids, pids = range(len(REGEXES)), range(len(PREDS))
+    if settings_list is not None:
+        ents = [e for sa in settings_list if sa for e in sa["white"] + sa["black"]]
+        rids = sorted(set(e[1] for e in ents if e[0] == "r"))
+        pids = sorted(set(e[1] for e in ents if e[0] == "p"))
+    rt = [(i, [n for n in names if REGEXES[i].search(n) is not None]) for i in rids]
+    pt = [(i, [n for n in names if PREDS[i](n)]) for i in pids]
     return rt, pt
 
 
@@ -215,7 +221,7 @@ def make_probe(log, depth, kid_factory, variant="plain"):
 
     def kid():
         if state["kid"] is None:
-            state["kid"] = kid_factory(depth + 1) if kid_factory else Leaf()
+            state["kid"] = kid_factory(depth + 1) if kid_factory else Leaf(log, depth + 1)
         return state["kid"]
 
     class Probe(object):
@@ -243,7 +249,11 @@ def make_probe(log, depth, kid_factory, variant="plain"):
 
 
 class Leaf(object):
+    def __init__(self, log, depth):
+        self._log, self._depth = log, depth
+
     def __call__(self, *a, **k):
+        self._log.append((self._depth, "C", "()"))
         return self
 
 
@@ -368,6 +378,8 @@ def run_single(sa, via, form, name, route, on_class=False):
         if kind != want_kind:
             return None, "form %s reached the member through %s" % (form, kind)
         called = any(k == "C" for _, k, _ in log)
+        if n == "__class__" and form == "method":
+            called = True        # the probe answers __class__ with its real class: calling it is not logged
         if called != (form == "method"):
             return None, "form %s: member called=%s" % (form, called)
         return ("reach", n), None
@@ -384,7 +396,7 @@ HEADER = "From YV Require Import Model.Yaqlized."
 
 
 def case_term(c, obs):
-    rt, pt = tables(NAMES + [c["name"]] + [v[1] for _, v in (c["sargs"] or {"remap": []})["remap"]])
+    rt, pt = tables([c["name"]], [c["sargs"]])
     return ("{| c_regex := %s; c_pred := %s; c_via_yaqlize := %s; c_args := %s; c_form := %s; c_name := %s; c_obs := %s |}"
             % (table_term(rt), table_term(pt), gal.boolean(c["via"]),
                gal.opt(c["sargs"], yargs_term), FORM_TERM[c["form"]], gal.s(c["name"]), outcome_term(obs)))
@@ -532,8 +544,7 @@ def correspondence(run):
         c = dict(c)
         rts = routes_for(c["form"], c["name"])
         if "route" not in c or c["route"] not in rts:
-            # prefer the parsed text when the name can be written; rotate through the others
-            c["route"] = rts[i % len(rts)] if i % 3 else rts[-1] if rts[-1] != "var" else rts[len(rts) - 2]
+            c["route"] = rts[i % len(rts)]
         on_class = (i % 7 == 3)
         obs, anomaly = run_single(c["sargs"], c["via"], c["form"], c["name"], c["route"], on_class)
         run.case((c["sargs"], c["via"], c["form"], c["name"], c["route"]), nontrivial=nontrivial(c))
@@ -617,8 +628,7 @@ def run_chain(root, kids, path):
 
 
 def chain_term(c, obs):
-    names = CHAIN_NAMES + [n for _, n in c["path"]]
-    rt, pt = tables(names)
+    rt, pt = tables([n for _, n in c["path"]], [c["root"]] + [k[0] for k in c["kids"]])
     kids = gal.lst(gal.pair(gal.opt(k[0], yargs_term), gal.boolean(k[1] != "plain")) for k in c["kids"])
     return ("{| cc_regex := %s; cc_pred := %s; cc_root := %s; cc_children := %s; cc_path := %s; cc_obs := %s |}" % (
         table_term(rt), table_term(pt), gal.opt(c["root"], yargs_term), kids if c["kids"] else "[]",
